@@ -142,9 +142,35 @@ def check_reports(rec):
             ven = float(sum((sum((max(x, F(0)) for x in c.values()), F(0)) for c in rec["commands"]), F(0)))
             if vcap > 0 and (cyc is None or abs(cyc - ven / vcap) > 1e-9 * max(1, abs(ven / vcap))):
                 v.append(("C18/aggregate-cycles", "%s: vehicle battery cycles %s != %s: %s" % (g, cyc, ven / vcap, d)))
+            # stationary battery cycles = charged energy / capacity of the batteries at this connector
+            bats_here = [k for k in rec["bat"] if rec["bat"][k]["parent"] == g]
+            if bats_here and all(rec["bat"][k]["cap"] < 2 ** 63 for k in bats_here):
+                cap_ = float(sum((rec["bat"][k]["cap"] for k in bats_here), F(0)))
+                en_ = 0.0
+                for i in range(n):
+                    loss = rec["steps"][i].get("loss")
+                    if loss is None:
+                        en_ = None
+                        break
+                    en_ += float(sum((max(val, F(0)) for k, val in loss["gc"][g]["loads"].items() if k in bats_here), F(0)) / rec["ts_per_hour"])
+                got = jr.get("stationary battery cycles", {}).get("value")
+                if en_ is not None and cap_ > 0 and (got is None or abs(got - en_ / cap_) > 1e-9 * max(1, en_ / cap_)):
+                    v.append(("C18/aggregate-battery-cycles", "%s: stationary battery cycles %s != charged energy / capacity = %s: %s" % (g, got, en_ / cap_, d)))
     socs = tables.get("s.csv")
     if socs is not None and len(socs) != n:
         v.append(("C18/row-count", "SoC file has %d rows, simulated %d steps: %s" % (len(socs), n, d)))
+    elif socs is not None:
+        # SoC file: the column of a vehicle holds that vehicle's SoC at the start of every step in which it is connected
+        for i, row in enumerate(socs):
+            pre = rec["steps"][i].get("pre")
+            if pre is None:
+                continue
+            for vid, x in pre["veh"].items():
+                if x["cs"] is None or vid not in row or row[vid] in ("", "None"):
+                    continue
+                if abs(float(row[vid]) - float(x["soc"])) > 1e-9:
+                    v.append(("C18/soc-column", "SoC file row %d column %s = %s, simulated SoC of that vehicle %s: %s" % (i, vid, row[vid], float(x["soc"]), d)))
+                    return v[:3]
     return v[:3]
 
 
